@@ -128,6 +128,9 @@ def gen_test(rng, names):
             return "*" + nm[rng.randint(0, len(nm)):]
         if k < 0.75 and len(nm) > 1:
             i = rng.randint(0, len(nm) - 1)
+            if i % 3 == 2:
+                # prefix and suffix overlap in the name they were cut from: nm itself must NOT match (seed C18-3)
+                return nm[:i + 1] + "*" + nm[i:]
             return nm[:i] + "*" + nm[i + 1:]
         if k < 0.9:
             return "*" + rng.choice("abcx-.") + "*"
@@ -162,6 +165,8 @@ def glob_of(rng, nm):
         return "*" + nm[rng.randint(0, len(nm)):]
     if k < 0.9 and len(nm) > 1:
         i = rng.randint(0, len(nm) - 1)
+        if i % 3 != 0:
+            return nm[:i + 1] + "*" + nm[i:]        # overlapping prefix/suffix: nm itself does not match
         return nm[:i] + "*" + nm[i + 1:]
     return "*" + nm[len(nm) // 2:len(nm) // 2 + 1] + "*"
 
